@@ -74,6 +74,16 @@ RetReply(i, gid) ==          \* its own reply, handed to nobody else
    /\ handed' = handed \cup {gid}
    /\ st' = [st EXCEPT ![i] = "ret"] /\ tret' = [tret EXCEPT ![i] = now']
    /\ UNCHANGED <<key, where, released, recv, ans, lost, lostAt, stale, devs, closing, tcall, nref, refAt, life>>
+(* SECoP replies carry no request id: the answer to a request that had timed out (the node was late, outside  *)
+(* what the client can repair) is indistinguishable from the answer to the next request with the same key.   *)
+(* A caller may get that late reply - of a request with ITS key that returned without a reply - and nothing  *)
+(* else; the late reply is handed out at most once.                                                          *)
+RetLateReply(i, gid) ==
+   /\ st[i] = "called" /\ gid \in Callers /\ gid # i /\ key[gid] = key[i]
+   /\ st[gid] = "ret" /\ gid \in ans /\ gid \notin handed /\ where[i] = "sent"
+   /\ handed' = handed \cup {gid}
+   /\ st' = [st EXCEPT ![i] = "ret"] /\ tret' = [tret EXCEPT ![i] = now']
+   /\ UNCHANGED <<key, where, released, recv, ans, lost, lostAt, stale, devs, closing, tcall, nref, refAt, life>>
 RetTimeout(i, dt) ==         \* only a peer that ignored the request, on a live connection, after the time-out
    /\ st[i] = "called" /\ ~lost /\ dt >= Tmo /\ dt <= Tmo + 5
    /\ \E j \in Callers : /\ key[j] = key[i] /\ j \in recv /\ j \notin ans      \* own or colliding request ignored,
